@@ -92,19 +92,19 @@ CHECKS = {
     "C07": dict(
         level="model_checking",
         clauses=GEN_CLAUSES_SPEC | {"errclass"},
-        phases=dict(quick=[dict(profile="union2"), dict(profile="unionh4")], thorough=[dict(profile="union2"), dict(profile="union3"), dict(profile="unionh4")]),
+        phases=dict(quick=[dict(kind="argspace", verbs=["union"]), dict(profile="union2"), dict(profile="unionh4")], thorough=[dict(profile="union2"), dict(profile="union3"), dict(profile="unionh4")]),
     ),
     "C08": dict(
         level="model_checking",
         clauses=SUBQ | {"rows", "order", "names", "export-error", "accept", "flat-correct"}, backends={"sqlite"},
-        phases=dict(quick=[dict(kind="flat", depth=5), dict(kind="flat", depth=3, paths=True), dict(kind="flat", depth=4, alias=True), dict(kind="flat", depth=4, paths=True, alias=True, srcs=[1]), dict(kind="flatjoin", pre=2), dict(profile="gsub4"), dict(profile="subq4"), dict(profile="wins3"), dict(profile="agg3"), dict(profile="joins3"), dict(profile="union2")],
+        phases=dict(quick=[dict(kind="flat", depth=5), dict(kind="flat", depth=3, paths=True), dict(kind="flat", depth=4, alias=True), dict(kind="flat", depth=4, paths=True, alias=True, srcs=[1]), dict(kind="argspace", verbs=["slices"], sizes=[5], ns=[1, 2, 4], ks=[0, 1, 2]), dict(kind="flatjoin", pre=2), dict(profile="gsub4"), dict(profile="subq4"), dict(profile="wins3"), dict(profile="agg3"), dict(profile="joins3"), dict(profile="union2")],
                     thorough=[dict(kind="flat", depth=6, srcs=[1, 6, 7], timeout=1800), dict(kind="flat", depth=4, paths=True), dict(kind="flatjoin", pre=3), dict(profile="wins4"), dict(profile="agg3"), dict(profile="win3"),
                               dict(profile="joins4"), dict(profile="union3")]),
     ),
     "C02": dict(
         level="model_checking",
         clauses=GEN_CLAUSES_SPEC,
-        phases=dict(quick=[dict(kind="proofs", canary=False), dict(kind="verbnames"), dict(profile="core2"), dict(profile="imm3", opts=dict(pool=True)), dict(profile="subq4"), dict(profile="wins3"), dict(profile="tall2")],
+        phases=dict(quick=[dict(kind="proofs", canary=False), dict(kind="verbnames"), dict(kind="argspace", verbs=["slices"]), dict(profile="core2"), dict(profile="imm3", opts=dict(pool=True)), dict(profile="subq4"), dict(profile="wins3"), dict(profile="tall2")],
                     thorough=[dict(kind="proofs", canary=False), dict(kind="verbnames", cols=["a", "b", "c", "x"], keys=["a", "b", "c", "x", "z"], vals=["a", "b", "c", "x", "y"]), dict(profile="core2"), dict(profile="core3"), dict(profile="imm4", opts=dict(pool=True)), dict(profile="wins4"), dict(profile="tall2"), dict(profile="reroot3")]),
     ),
     "C03": dict(
